@@ -33,6 +33,7 @@ REGION = [
     "secsgem.common.byte_queue:ByteQueue.*",
     "secsgem.common.protocol_dispatcher:ProtocolDispatcher.*",
     "secsgem.common.block_send_info:BlockSendInfo.*",
+    "secsgem.common.protocol:Protocol.get_next_system_counter",
 ]
 
 
@@ -82,7 +83,12 @@ def run_one(devs, budgets, blocks=1, direction="h2e", corrupt=None, all_bytes=Fa
         results = {}
 
         def send1():
-            results["first"] = sender.send_message(_sm.SecsIMessage(hdr1, body1))
+            h1 = hdr1
+            if twin == "counter":
+                # the system bytes come from the protocol's own transaction counter, drawn by each sender thread itself
+                box["sys1"] = sender.get_next_system_counter()
+                h1 = secsgem.secsi.SecsIHeader(box["sys1"], 7, 3, 17, 0, direction == "e2h", True, True)
+            results["first"] = sender.send_message(_sm.SecsIMessage(h1, body1))
 
         t = vrt.Thread(target=send1, name="sender-1")
         t.start()
@@ -93,7 +99,11 @@ def run_one(devs, budgets, blocks=1, direction="h2e", corrupt=None, all_bytes=Fa
             hdrt = secsgem.secsi.SecsIHeader(0x4004, 7, 9, 1, 0, direction == "e2h", False, True)
 
             def sendt():
-                results["twin"] = sender.send_message(_sm.SecsIMessage(hdrt, bodyt))
+                ht = hdrt
+                if twin == "counter":
+                    box["syst"] = sender.get_next_system_counter()
+                    ht = secsgem.secsi.SecsIHeader(box["syst"], 7, 9, 1, 0, direction == "e2h", False, True)
+                results["twin"] = sender.send_message(_sm.SecsIMessage(ht, bodyt))
 
             tt = vrt.Thread(target=sendt, name="sender-twin")
             tt.start()
@@ -161,9 +171,13 @@ def run_one(devs, budgets, blocks=1, direction="h2e", corrupt=None, all_bytes=Fa
         res["v"].append((f"C17|hang|{sched.outcome}|{tag}", {"case": case, "info": sched.deadlock_info, "results": box.get("results")}))
         return res
     results, got, rname = box["results"], box["got"], box["rname"]
-    mine = [m for m in got[rname] if m[0] == 0x1001]
+    sys1, syst = box.get("sys1", 0x1001), box.get("syst", 0x4004)
+    if twin == "counter" and sys1 == syst:
+        res["v"].append((f"C17|two-senders-drew-the-same-system-bytes|{tag}", {"case": case, "system": sys1}))
+        return res
+    mine = [m for m in got[rname] if m[0] == sys1]
     ok1 = results.get("first")
-    want1 = (0x1001, 3, 17, 7, direction == "e2h", True, box["body1"])
+    want1 = (sys1, 3, 17, 7, direction == "e2h", True, box["body1"])
     if corrupt is None:
         if ok1 is not True:
             res["v"].append((f"C17|clean-message-reported-failed|{tag}", {"case": case, "results": results}))
@@ -193,7 +207,7 @@ def run_one(devs, budgets, blocks=1, direction="h2e", corrupt=None, all_bytes=Fa
     if ok1 is True and len(mine) != 1:
         res["v"].append((f"C17|success-but-delivered={len(mine)}|{tag}", {"case": case}))
     if "expected_twin" in box:
-        mt = [m for m in got[rname] if m[0] == 0x4004]
+        mt = [m for m in got[rname] if m[0] == syst]
         if results.get("twin") is not True or len(mt) != 1 or mt[0][6] != box["expected_twin"][1]:
             res["v"].append((f"C17|concurrent-message-of-the-same-side-fails|{tag}", {"case": case, "results": results, "n": len(mt)}))
     if "expected2" in box:
@@ -298,6 +312,7 @@ def run(ctx):
     # two sender threads on one side (blocks of two messages alternate on the line), and a NAKed block against the sender's wake-up: <= K delays
     for cfg in ({"blocks": 3, "direction": "h2e", "second": False, "twin": True, "chunk_menu": False},
                 {"blocks": 2, "direction": "e2h", "second": False, "twin": True, "chunk_menu": False},
+                {"blocks": 2, "direction": "h2e", "second": False, "twin": "counter", "chunk_menu": False},
                 {"blocks": 1, "direction": "h2e", "second": False, "corrupt": [0, 15, 0x01], "chunk_menu": False},
                 {"blocks": 2, "direction": "e2h", "second": False, "corrupt": [1, 3, 0x01], "chunk_menu": False}):
         st = explore.explore(ctx, run_one, {"sched": k, "cut": 0}, f"c17-{'twin' if cfg.get('twin') else 'nak'}-{cfg['blocks']}-{cfg['direction']}", opts=cfg, chunk=8)
